@@ -340,3 +340,47 @@ theorem response_processing_keeps_cache (interp : Bytes → Pdu) (fuel : Nat) (s
 example : (Async.init 2).size = 3 ∧ (add (Async.init 2) 1000).2 = (0, 1) := by decide
 
 end KsiVerif.Props.C13
+
+namespace KsiVerif.Props.C13
+open KsiVerif KsiVerif.Tcp KsiVerif.Async
+
+/-- enlarging the cache while requests are outstanding loses none of them: every old slot keeps
+its handle, the new slots are free, nothing else changes; a smaller size is refused -/
+theorem grow_keeps_slots (s : Async.State) (n : Nat) :
+    ((grow s n).2 = St.INVALID_ARGUMENT ∧ n + 1 < s.size ∧ (grow s n).1 = s) ∨
+    ((grow s n).2 = 0 ∧ (grow s n).1.size = n + 1 ∧
+      (∀ i, i < s.slots.length → (grow s n).1.slots.getD i none = s.slots.getD i none) ∧
+      (∀ i, s.slots.length ≤ i → (grow s n).1.slots.getD i none = none) ∧
+      (grow s n).1.tcp = s.tcp ∧ (grow s n).1.ids = s.ids ∧
+      (grow s n).1.pending = s.pending ∧ (grow s n).1.received = s.received) := by
+  unfold grow
+  split
+  · rename_i h; exact Or.inl ⟨rfl, h, rfl⟩
+  · refine Or.inr ⟨rfl, rfl, ?_, ?_, rfl, rfl, rfl, rfl⟩
+    · intro i hi
+      simp only [List.getD_eq_getElem?_getD]
+      rw [List.getElem?_append_left hi]
+    · intro i hi
+      simp only [List.getD_eq_getElem?_getD]
+      rw [List.getElem?_append_right hi]
+      cases h : (List.replicate (n + 1 - s.size) (none : Option Nat))[i - s.slots.length]? with
+      | none => rfl
+      | some v =>
+        have := List.mem_of_getElem? h
+        simp only [List.mem_replicate] at this
+        simp [this.2]
+
+theorem J_grow (s : Async.State) (back : List Nat) (n : Nat) (hj : J s back) : J (grow s n).1 back := by
+  have hocc : occupied (grow s n).1 = occupied s := by
+    unfold grow occupied
+    split
+    · rfl
+    · simp [List.filterMap_append, List.filterMap_replicate]
+  have htcp : (grow s n).1.tcp = s.tcp := by unfold grow; split <;> rfl
+  constructor
+  · intro h hm; rw [hocc] at hm; rw [htcp]; exact hj.occ_lt h hm
+  · rw [hocc]; exact hj.occ_nodup
+  · intro h hm; rw [htcp]; exact hj.back_lt h hm
+  · intro h hm; rw [hocc]; exact hj.back_not_occ h hm
+
+end KsiVerif.Props.C13
